@@ -1586,7 +1586,11 @@ func c06SoakVerdict(in c06SoakIn) (violation, infra string, res c06SoakRes) {
 		name = eps[res.Entry].Name
 	}
 	if res.Alloc > c06Bound(len(doc)) {
-		return fmt.Sprintf("call number %d of a process that decodes the same two inputs alternately (iteration %d, %s) allocated %d bytes for a %d-byte input; bound is 1 MiB + 1 KiB/byte = %d - what a call allocates grows with what was decoded BEFORE, not with its input", res.Calls, res.Iter, name, res.Alloc, len(doc), c06Bound(len(doc))), "", res
+		what := "decodes the same two inputs alternately"
+		if in.Counter {
+			what = "decodes a small input that differs in one counter value each time"
+		}
+		return fmt.Sprintf("call number %d of a process that "+what+" (iteration %d, %s) allocated %d bytes for a %d-byte input; bound is 1 MiB + 1 KiB/byte = %d - what a call allocates grows with what was decoded BEFORE, not with its input", res.Calls, res.Iter, name, res.Alloc, len(doc), c06Bound(len(doc))), "", res
 	}
 	// a slow call: only a verdict if it is slow again in a second fresh history
 	res2 := c06Soak(in, 4*time.Minute)
